@@ -305,8 +305,10 @@ fn viol(rep: &mut Report, prop: &str, key: &str, what: String, case: Value) {
 }
 
 /// C05: values. Operands live in ordinary memory with canaries around the outputs.
-fn child_values(k: &Kernel, thorough: bool, rep: &mut Report) {
+fn child_values(k: &Kernel, thorough: bool, prop: &str, rep: &mut Report) {
     let is_ref = k.name == "rust/portable";
+    // C05 judges values; C07 judges writes outside the output and the calling convention
+    let values = prop == "C05";
     if k.has_single() {
         for s in singles(thorough) {
             let (ecv, exof) = if is_ref { spec_single(&s) } else { exp_single(&s) };
@@ -318,20 +320,20 @@ fn child_values(k: &Kernel, thorough: bool, rep: &mut Report) {
             let block = s.block;
             let r1 = unsafe { k.compress_in_place(&mut cv[1], &block, s.block_len, s.counter, s.flags) };
             if cv[1] != ecv {
-                viol(rep, "C05", &format!("{}:compress_in_place:mismatch", k.name), format!("{} compress_in_place block_len {} counter {} flags {:#x} ({}) differs from the portable kernel", k.name, s.block_len, s.counter, s.flags, s.tag), case.clone());
-            } else if cv[0] != [0xEEEEEEEE; 8] || cv[2] != [0xEEEEEEEE; 8] || block != s.block {
-                viol(rep, "C05", &format!("{}:compress_in_place:writes-outside-cv", k.name), format!("{} compress_in_place wrote outside the CV", k.name), case.clone());
+                if values { viol(rep, "C05", &format!("{}:compress_in_place:mismatch", k.name), format!("{} compress_in_place block_len {} counter {} flags {:#x} ({}) differs from the portable kernel", k.name, s.block_len, s.counter, s.flags, s.tag), case.clone()); }
+            } else if !values && (cv[0] != [0xEEEEEEEE; 8] || cv[2] != [0xEEEEEEEE; 8] || block != s.block) {
+                viol(rep, "C07", &format!("{}:compress_in_place:writes-outside-cv", k.name), format!("{} compress_in_place wrote outside the CV", k.name), case.clone());
             }
             let mut out = [[0xEEu8; 64]; 3];
             let cvc = s.cv;
             let r2 = unsafe { k.compress_xof(&cvc, &block, s.block_len, s.counter, s.flags, &mut out[1]) };
             if out[1] != exof {
-                viol(rep, "C05", &format!("{}:compress_xof:mismatch", k.name), format!("{} compress_xof block_len {} counter {} flags {:#x} ({}) differs from the portable kernel", k.name, s.block_len, s.counter, s.flags, s.tag), case.clone());
-            } else if out[0] != [0xEE; 64] || out[2] != [0xEE; 64] || cvc != s.cv {
-                viol(rep, "C05", &format!("{}:compress_xof:writes-outside-out", k.name), format!("{} compress_xof wrote outside its output", k.name), case.clone());
+                if values { viol(rep, "C05", &format!("{}:compress_xof:mismatch", k.name), format!("{} compress_xof block_len {} counter {} flags {:#x} ({}) differs from the portable kernel", k.name, s.block_len, s.counter, s.flags, s.tag), case.clone()); }
+            } else if !values && (out[0] != [0xEE; 64] || out[2] != [0xEE; 64] || cvc != s.cv) {
+                viol(rep, "C07", &format!("{}:compress_xof:writes-outside-out", k.name), format!("{} compress_xof wrote outside its output", k.name), case.clone());
             }
-            if let Some(w) = r1.or(r2) {
-                viol(rep, "C05", &format!("{}:calling-convention", k.name), format!("{} single-block kernel: {}", k.name, w), case);
+            if let (false, Some(w)) = (values, r1.or(r2)) {
+                viol(rep, "C07", &format!("{}:calling-convention", k.name), format!("{} single-block kernel: {}", k.name, w), case);
             }
         }
     }
@@ -369,12 +371,12 @@ fn child_values(k: &Kernel, thorough: bool, rep: &mut Report) {
         let r = unsafe { k.hash_many(&ptrs, ptrs.as_ptr(), m.blocks, &key, m.counter, m.inc, m.flags, m.fs, m.fe, outbuf.as_mut_ptr().add(obase)) };
         if outbuf[obase..obase + 32 * m.n] != exp[..] {
             let lane = (0..m.n).find(|i| outbuf[obase + 32 * i..obase + 32 * i + 32] != exp[32 * i..32 * i + 32]).unwrap_or(0);
-            viol(rep, "C05", &format!("{}:hash_many:mismatch", k.name), format!("{} hash_many {:?}: output {} differs from the portable loop", k.name, m, lane), case.clone());
-        } else if outbuf[..obase].iter().any(|b| *b != 0xEE) || outbuf[obase + 32 * m.n..].iter().any(|b| *b != 0xEE) {
-            viol(rep, "C05", &format!("{}:hash_many:writes-outside-out", k.name), format!("{} hash_many {:?} wrote outside the {} output bytes", k.name, m, 32 * m.n), case.clone());
+            if values { viol(rep, "C05", &format!("{}:hash_many:mismatch", k.name), format!("{} hash_many {:?}: output {} differs from the portable loop", k.name, m, lane), case.clone()); }
+        } else if !values && (outbuf[..obase].iter().any(|b| *b != 0xEE) || outbuf[obase + 32 * m.n..].iter().any(|b| *b != 0xEE)) {
+            viol(rep, "C07", &format!("{}:hash_many:writes-outside-out", k.name), format!("{} hash_many {:?} wrote outside the {} output bytes", k.name, m, 32 * m.n), case.clone());
         }
-        if let Some(w) = r {
-            viol(rep, "C05", &format!("{}:calling-convention", k.name), format!("{} hash_many {:?}: {}", k.name, m, w), case);
+        if let (false, Some(w)) = (values, r) {
+            viol(rep, "C07", &format!("{}:calling-convention", k.name), format!("{} hash_many {:?}: {}", k.name, m, w), case);
         }
     }
     // xof_many
@@ -393,12 +395,12 @@ fn child_values(k: &Kernel, thorough: bool, rep: &mut Report) {
             let r = unsafe { k.xof_many(&cv, &block, x.block_len, x.counter, x.flags, out.as_mut_ptr().add(128), x.n) };
             if out[128..128 + 64 * x.n] != exp[..] {
                 let lane = (0..x.n).find(|i| out[128 + 64 * i..128 + 64 * i + 64] != exp[64 * i..64 * i + 64]).unwrap_or(0);
-                viol(rep, "C05", &format!("{}:xof_many:mismatch", k.name), format!("{} xof_many {:?}: block {} differs from the portable loop", k.name, x, lane), case.clone());
-            } else if out[..128].iter().any(|b| *b != 0xEE) || out[128 + 64 * x.n..].iter().any(|b| *b != 0xEE) {
-                viol(rep, "C05", &format!("{}:xof_many:writes-outside-out", k.name), format!("{} xof_many {:?} wrote outside the {} output bytes", k.name, x, 64 * x.n), case.clone());
+                if values { viol(rep, "C05", &format!("{}:xof_many:mismatch", k.name), format!("{} xof_many {:?}: block {} differs from the portable loop", k.name, x, lane), case.clone()); }
+            } else if !values && (out[..128].iter().any(|b| *b != 0xEE) || out[128 + 64 * x.n..].iter().any(|b| *b != 0xEE)) {
+                viol(rep, "C07", &format!("{}:xof_many:writes-outside-out", k.name), format!("{} xof_many {:?} wrote outside the {} output bytes", k.name, x, 64 * x.n), case.clone());
             }
-            if let Some(w) = r {
-                viol(rep, "C05", &format!("{}:calling-convention", k.name), format!("{} xof_many {:?}: {}", k.name, x, w), case);
+            if let (false, Some(w)) = (values, r) {
+                viol(rep, "C07", &format!("{}:calling-convention", k.name), format!("{} xof_many {:?}: {}", k.name, x, w), case);
             }
         }
     }
@@ -525,7 +527,7 @@ fn run_child(args: &Args) {
     });
     let mut rep = Report::new(args, "kernels", "exploration");
     if mode == "values" {
-        child_values(&k, args.thorough(), &mut rep);
+        child_values(&k, args.thorough(), &args.prop, &mut rep);
     } else {
         let curpath = args.extra.get("cur").cloned().unwrap_or_else(|| "/verif/out/kern.cur".into());
         let file = std::fs::OpenOptions::new().create(true).write(true).truncate(true).open(&curpath).expect("cur file");
@@ -591,7 +593,7 @@ fn run_values(args: &Args, rep: &mut Report, only: Option<&str>) {
         let out = child.wait_with_output().expect("wait");
         if !out.status.success() || !merge_child_report(rep, &rpt) {
             // a crash while computing values is itself a finding about that kernel
-            viol(rep, "C05", &format!("{}:crash", k.name), format!("{} crashed during the value sweep ({}): {}", k.name, signal_name(&out.status), String::from_utf8_lossy(&out.stderr).lines().last().unwrap_or("")),
+            viol(rep, &args.prop, &format!("{}:crash", k.name), format!("{} crashed during the value sweep ({}): {}", k.name, signal_name(&out.status), String::from_utf8_lossy(&out.stderr).lines().last().unwrap_or("")),
                 json!({"kernel": k.name, "op": "any"}));
         }
         rep.inc("kernels_explored");
@@ -674,6 +676,7 @@ fn main() {
             run_values(&a, &mut rep, kernel.as_deref());
         } else {
             run_guards(&a, &mut rep, kernel.as_deref());
+            run_values(&a, &mut rep, kernel.as_deref());
         }
         for x in rep.violations.iter().take(3) {
             println!("violation {}: {}", x.key, x.summary);
@@ -694,8 +697,9 @@ fn main() {
         }
         "C07" => {
             run_guards(&args, &mut rep, None);
+            run_values(&args, &mut rep, None);
             san::run(&args, &mut rep);
-            rep.rule = "every kernel of every flavour run with every operand (each input, the input-pointer array, key/CV, block, and an output sized exactly 32*num_inputs / 64*blocks) flush against a PROT_NONE page, once on the right and once on the left, over block_len 0..=64, input counts 0..=2*degree+3 (35 thorough) x blocks {1,16} x counters x increment, xof_many 1..=40 blocks; each case in a child process, a fault is the violation; every assembly / C call goes through a trampoline that loads sentinels into all callee-saved registers of the target convention (System V: rbx rbp r12-r15; Win64 also rsi rdi xmm6-xmm15) and checks them, rsp and DF afterwards; plus the C library and C intrinsics built with clang -fsanitize=address,undefined and driven through update/finalize_seek histories and kernel calls on exact-size heap buffers; non-trivial = distinct guarded calls".into();
+            rep.rule = "every kernel of every flavour run with every operand (each input, the input-pointer array, key/CV, block, and an output sized exactly 32*num_inputs / 64*blocks) flush against a PROT_NONE page, once on the right and once on the left, over block_len 0..=64, input counts 0..=2*degree+3 (35 thorough) x blocks {1,16} x counters x increment, xof_many 1..=40 blocks; each case in a child process, a fault is the violation; the whole C05 shape space re-run with canaries around every output; every assembly / C call goes through a trampoline that loads sentinels into all callee-saved registers of the target convention (System V: rbx rbp r12-r15; Win64 also rsi rdi xmm6-xmm15) and checks them, rsp and DF afterwards; plus the C library and C intrinsics built with clang -fsanitize=address,undefined and driven through update/finalize_seek histories and kernel calls on exact-size heap buffers; non-trivial = distinct guarded calls".into();
             rep.sample(json!({"kernel": "unix_asm/avx2", "op": "hash_many", "guard": "right", "num_inputs": 5, "blocks": 16, "counter": "4294967295", "increment": true}));
             rep.assumptions.push("undefined behaviour in the Rust intrinsics that neither faults nor changes results is not observable here".into());
             rep.assumptions.push("Win64 assembly is run as ELF after renaming .rdata; behaviour depending on a real Windows loader is out of reach".into());
